@@ -141,6 +141,10 @@ def generate(rng, tier, weights=None, max_ops=None, hostile=0.2):
     weights = weights or {}
     env = gen.gen_env(rng)
     tree = gen.gen_tree(rng, max_entries=weights.get("max_entries", 10), max_depth=3, hostile=hostile)
+    if rng.random() < weights.get("bigdir", 0.08):
+        big = rng.choice([""] + gen.tree_dirs(tree))
+        for i in range(rng.randint(11, 18)):
+            tree[(big + "/" if big else "") + f"many{i:02d}.dat"] = {"t": "f", "c": gen.unique_content(rng, 4)}
     env["tree"] = tree
     state = {"tree": dict(tree), "nested": []}
     ops = []
